@@ -24,6 +24,7 @@ import (
 type progExt struct {
 	*progFile
 	edts      []bool
+	shortPct  []int // with an edit list: the presentation (tkhd duration, elst segment) covers only this percentage of the media (0 = all)
 	mediaTime []int64
 	uniform   []bool
 	cttsV1    []bool
@@ -199,6 +200,11 @@ func genProgExt(r *rand.Rand, nTracks, maxSamples int, flavor string) *progExt {
 		}
 		pe.tracks = append(pe.tracks, t)
 		pe.edts = append(pe.edts, r.Intn(3) == 0)
+		sp := 0
+		if pe.edts[len(pe.edts)-1] && r.Intn(3) == 0 {
+			sp = 30 + r.Intn(60)
+		}
+		pe.shortPct = append(pe.shortPct, sp)
 		mt := int64(0)
 		if t.hasCtts && r.Intn(2) == 0 {
 			mt = int64(o.base)
@@ -312,6 +318,9 @@ func (pe *progExt) buildExt(r *rand.Rand) {
 			total += uint64(d)
 		}
 		trak.Tkhd.Duration = total * uint64(pe.mvhdTS) / uint64(t.timescale)
+		if pe.edts[i] && pe.shortPct[i] > 0 && trak.Tkhd.Duration > 1 {
+			trak.Tkhd.Duration = trak.Tkhd.Duration * uint64(pe.shortPct[i]) / 100
+		}
 		if trak.Tkhd.Duration > maxDur {
 			maxDur = trak.Tkhd.Duration
 		}
